@@ -415,5 +415,12 @@ def run(ctx):
             bind, provided = gen.assign_sources(rng, spec)
             spec["bind"] = {**(spec.get("bind") or {}), **{k: v for k, v in bind.items() if k not in (spec.get("bind") or {})}}
             inputs = {k: f"run:{k}" for k in ref.ref_inputs(spec)[0]}
+        if rng.random() < 0.35:
+            # outputs that cannot be copied or pickled (locks, clients, generators inside): the FAILED result still
+            # carries them, and the node's own exception still surfaces
+            pool = [ns for ns in all_fids(spec).values() if ns["k"] == "fn" and len(ns.get("outs", [])) == 1 and not ns.get("gen")]
+            for ns in rng.sample(pool, min(len(pool), rng.randint(1, 2))):
+                ns["uncopyable"] = True
+                ctx.obs["uncopyable_outputs"] += 1
         k = inject_all(ctx, spec, inputs, label)
         ctx.case({"p": label, "s": gen.shape_of(spec)}, k > 0 and len(spec["nodes"]) >= 2, sample={"spec": spec, "inputs": inputs} if i < 2 else None)
